@@ -403,6 +403,26 @@ def check_comparison(prog, chk, body, field, variant, bb, idx, stmt, limit_tmp):
             f"`{name}` counts completed passes (init 0 outside the loop, +1 on every pass, test after the increment) and the test is `{name} > {field}`: a loop of exactly {field} passes is accepted, one more is rejected",
             f"loop-limit predicate is not exact: normalised `{name} {op} {field}`, increment_before_test={inc_before}, test_before_increment={cmp_before}, every_pass_increments={back_ok}, counter_init_outside_loop={in_loop}",
         )
+        # ... and no pass escapes the test: once the body of the loop has run, the loop is left normally only through
+        # the comparison (an `until` that breaks between the body and the test lets pass limit+1 through unchecked)
+        bodies_ = [cb_ for (cb_, ct_, cc_) in body.call_sites(lambda c: c.path == "svgdx::transform::process_events") if cb_ in lp[1]]
+        if bodies_:
+            errb = set()
+            for x_ in body.reachable:
+                for s_ in body.stmts(x_):
+                    if "lhs" in s_ and s_["lhs"][0] in body.ret_locals and not s_["lhs"][1] and s_["rv"].get("k") == "aggr" and s_["rv"].get("variant") == "Err":
+                        errb.add(x_)
+                t_ = body.term(x_)
+                if t_["k"] == "call" and "fn" in t_ and Callee(t_["fn"]).decl_path == "std::ops::FromResidual::from_residual":
+                    errb.add(x_)
+            rets_ = {x_ for x_ in body.reachable if body.term(x_)["k"] == "ret"}
+            inside = body.reach([body.term(bodies_[0])["t"]], avoid={bb, lp[0]} | (set(body.reachable) - set(lp[1]))) if body.term(bodies_[0]).get("t") is not None else set()
+            leaks = []
+            for x_ in sorted(inside):
+                for y_ in body.succ[x_]:
+                    if y_ not in lp[1] and (body.reach([y_], avoid=errb) & rets_):
+                        leaks.append((x_, y_))
+            chk.ob(not leaks, "A7.pred", key + ":every-pass-tested", where, f"after the body has run the loop is left (other than by an error) only through the test against {field}", f"a pass of the loop can end the loop normally between the body and the test against {field} (line {body.term(leaks[0][0]).get('line') if leaks else ''}): a loop that finishes in pass {field}+1 - an `until` that becomes true there - has run more than {field} passes and is accepted")
     elif field == "var_limit":
         ch = body.chase(counter)
         is_len = ch[0] == "call" and "fn" in ch[2] and Callee(ch[2]["fn"]).path in ("std::string::String::len", "core::str::<impl str>::len", "std::str::<impl str>::len")
